@@ -120,7 +120,8 @@ TYPE_RANGE = {
 class Explorer:
     def __init__(self, prog, inline=None, summaries=None, max_depth=4, max_paths=200000,
                  effects=None, distinct_roots=True, loop_bound=2, on_unknown_call=None,
-                 nondet_fields=(), field_values=None, merge=False, on_call=None):
+                 nondet_fields=(), field_values=None, merge=False, on_call=None, on_load=None,
+                 symbolic_roots=()):
         self.prog = prog
         self.inline = inline or (lambda name, fn: False)
         self.summaries = summaries or {}
@@ -138,6 +139,11 @@ class Explorer:
         self._ro_cache = {}
         self.syms = {}          # symbol -> (lo, hi)
         self.on_call = on_call  # on_call(ex, st, f, node, callee, args): observe every call
+        self.on_load = on_load  # on_load(ex, st, f, node, loc): observe every read of a location
+        # integer loads from unknown locations under these roots yield one symbol per location
+        # (kept in the store), so that two reads of the same bytes are known to be equal
+        self.symbolic_roots = set(symbolic_roots)
+        self._nmem = 0
         # merge mode: path states reaching the same block with the same store
         # are explored once; events go to self.event_log instead of per-path
         # traces (for rules that need the set of effects, not their order)
@@ -645,6 +651,8 @@ class Explorer:
                         sv = bv[1]
                         return INT(ord(sv[iv[1]])) if 0 <= iv[1] < len(sv) else (INT(0) if iv[1] == len(sv) else TOP)
                 loc = self.L(f, fid, c[0], st)
+                if self.on_load is not None and loc is not None:
+                    self.on_load(self, st, f, i, loc)
                 if loc is not None and loc[1] and isinstance(loc[1][-1], tuple) and \
                         loc[1][-1] in self.nondet_fields:
                     return TOP
@@ -658,6 +666,13 @@ class Explorer:
                         return gv
                 if loc is not None and loc not in st.store and (loc[0], ("zeroinit",)) in st.store:
                     return INT(0)
+                if loc is not None and loc not in st.store and loc[0] in self.symbolic_roots:
+                    r = TYPE_RANGE.get(n.get("ct") or n.get("t"))
+                    if r is not None:
+                        self._nmem += 1
+                        v = self.sym("mem%d:%s" % (self._nmem, f.src(c[0])), r[0], r[1])
+                        st.store[loc] = v
+                        return v
                 return self.load(st.store, loc)
             if ck == "ArrayToPointerDecay":
                 sn = f.nodes[f.strip(c[0])]
